@@ -1,6 +1,6 @@
 """The checks, one function per property. Each builds the harness from /repo's working tree, lets
 TLC enumerate / generate / judge, and reports through vlib.Check."""
-import os, json, hashlib, shutil, glob, time
+import os, json, hashlib, shutil, glob, time, re
 from vlib import *
 
 ALPHAS = ["struct", "quote", "block", "prop", "break", "docmark", "tab", "dir", "flow", "keys"]
@@ -41,6 +41,13 @@ def mc_pipeline(ck, alpha, n, workers=8):
         shutil.move(tmp, out)
         m = {"states": r.distinct, "transitions": r.states, "violated": None, "out": out, "wall": r.wall}
         json.dump(m, open(meta, "w"))
+        # entries of the same configuration computed from older versions of the modules are stale
+        for f in glob.glob(os.path.join(cdir, "mcp_%s_%d_*" % (alpha, n))):
+            if not f.startswith(out) and re.fullmatch(r"[0-9a-f]{16}\.out(\.json|\.cex)?", f[len(os.path.join(cdir, "mcp_%s_%d_" % (alpha, n))):]):
+                try:
+                    os.remove(f)
+                except OSError:
+                    pass
     ck.states += m["states"]
     ck.transitions += m["transitions"]
     return m
@@ -65,6 +72,13 @@ def tlc_cached(ck, module, cfg, deps, workers=8, timeout=7200, xmx="8g", keep_ou
             except OSError:
                 pass
         json.dump(m, open(meta, "w"))
+        # entries of the same configuration computed from older versions of the modules are stale
+        for f in glob.glob(os.path.join(cdir, "%s_%s_*" % (module, cfg))):
+            if not f.startswith(meta[:-5]) and re.fullmatch(r"[0-9a-f]{24}\.(json|out)", f[len(os.path.join(cdir, "%s_%s_" % (module, cfg))):]):
+                try:
+                    os.remove(f)
+                except OSError:
+                    pass
     ck.states += m["states"]
     ck.transitions += m["transitions"]
     return m
